@@ -2,7 +2,7 @@
 """C09 -- when the LLCP link ends no application thread is left waiting (structural clauses)."""
 import ast
 
-from ..model import norm, head, walk_no_nested, AnalysisError, FuncInfo, ClassInfo, enclosing_stmt, ancestors
+from ..model import norm, head, walk_no_nested, AnalysisError, FuncInfo, ClassInfo, enclosing_stmt, ancestors, last_live
 from ..cfg import CFG, cfg_of
 from ..resolve import Resolver, Ctx
 from ..escape import Escape, fmt_chain, items_sorted
@@ -357,6 +357,18 @@ def rule_service_threads(report, prog, res):
                      'service thread %s does not catch nfc.llcp.Error: it dies with a traceback / never exits cleanly' % f.qname)
         report.check(fin, 'C09-R6', key(f.qname, 'socket closed in finally'), f.loc(),
                      'service thread %s does not close its listen socket in a finally clause' % f.qname)
+        # an error of accept() ends the loop: after link termination accept() keeps raising (ESHUTDOWN, EPIPE, EBADF ...), a handler
+        # inside the loop that carries on for some error codes makes the thread spin for ever
+        for lp in [l for l in walk_no_nested(f.node) if isinstance(l, ast.While)]:
+            for t in [t for t in ast.walk(lp) if isinstance(t, ast.Try)]:
+                for h in t.handlers:
+                    if h.type is None or any(w in norm(h.type) for w in ('nfc.llcp.Error', 'IOError', 'OSError', 'Exception')):
+                        # every path through the handler leaves the loop: it ends in break / return / raise and has no continue
+                        leaves = isinstance(last_live(h.body), (ast.Break, ast.Return, ast.Raise)) and \
+                            not any(isinstance(x, ast.Continue) for x in ast.walk(h))
+                        report.check(leaves, 'C09-R6', key(f.qname, 'a socket error inside the accept loop leaves the loop', h.type), f.loc(h),
+                                     'service thread %s handles %s inside its accept loop and carries on: once the link is terminated accept() raises on '
+                                     'every call and the thread never exits' % (f.qname, norm(h.type) if h.type is not None else 'any exception'))
         # the per-connection thread body
         for sname in (serve_fn,):
             g = prog.lookup(cls, sname)
